@@ -6,13 +6,13 @@
 EXTENDS Footer, Json, TLCExt
 VARIABLE l
 TraceLog == ndJsonDeserialize("trace.ndjson")
-Rec(f) == [kind |-> f.kind, blen |-> f.blen, mut |-> f.mut, off |-> f.off, opt |-> f.opt]
+Rec(f) == [kind |-> f.kind, blen |-> f.blen, mut |-> f.mut, off |-> f.off, len |-> f.len, opt |-> f.opt]
 Why(ev) ==
     IF ev.out \in {"ok", "error"} /\ ev.ep \in {"open", "parse:estargz", "parse:legacy", "parse:zstd", "parse:ext"}
        /\ ev.out \notin Allowed(Rec(ev.f), ev.ep)
     THEN (IF ev.out = "ok" THEN "accepted-short-blob" ELSE "rejected-valid-footer")
     ELSE ""
-TraceInit == l = 1 /\ c = [kind |-> "estargz", blen |-> "gt", mut |-> "none", off |-> "inside", opt |-> "none"]
+TraceInit == l = 1 /\ c = [kind |-> "estargz", blen |-> "gt", mut |-> "none", off |-> "inside", len |-> "ok", opt |-> "none"]
 TraceNext ==
     /\ l <= Len(TraceLog)
     /\ LET w == Why(TraceLog[l]) IN IF w = "" THEN TRUE ELSE PrintT("VMISS " \o ToString(l) \o " " \o w)
